@@ -24,31 +24,124 @@ def sha(b) -> str:
     return hashlib.sha1(bytes(b)).hexdigest()[:16]
 
 
+_CONT = (dict, list, set, bytearray)
+_SCAL = (int, float, bool, str, bytes, type(None), tuple, frozenset, complex)
+
+
 def snapshot():
-    """repr-hash of every mutable container reachable as a module global or class attribute of psd_tools."""
+    """hash of every piece of process-wide state we can see:
+    * every module global / class attribute of psd_tools that is a container, a plain value (counters, flags,
+      cached values) or a plain object with a __dict__; the identity of module-level functions and of methods
+      (monkey-patching / rebinding);
+    * the process-wide switches of the standard library and of the third-party modules psd_tools uses
+      (`ext:` keys, see ext_snapshot)."""
     out = {}
     for name, mod in sorted(sys.modules.items()):
         if not (name == "psd_tools" or name.startswith("psd_tools.")) or mod is None:
             continue
+        out["mod:" + name] = "present"
         for k, v in sorted(vars(mod).items()):
             if k.startswith("__"):
                 continue
-            if isinstance(v, (dict, list, set, bytearray)):
+            if isinstance(v, _CONT) or isinstance(v, _SCAL):
                 out[f"{name}:{k}"] = _h(v)
             elif isinstance(v, type) and getattr(v, "__module__", None) == name:
                 for ck, cv in sorted(vars(v).items()):
-                    if ck.startswith("__"):
+                    if ck.startswith("__") or ck in ("_abc_impl",):
                         continue
-                    if isinstance(cv, (dict, list, set, bytearray)):
+                    if isinstance(cv, _CONT) or (isinstance(cv, _SCAL) and not isinstance(cv, str)):
                         out[f"{name}:{v.__name__}.{ck}"] = _h(cv)
+                    elif callable(cv) or isinstance(cv, (property, classmethod, staticmethod)):
+                        out[f"{name}:{v.__name__}.{ck}"] = "id%x" % id(cv)
+            elif isinstance(v, type(sys)) or isinstance(v, type):
+                continue                              # imported modules / classes: covered where they are defined
+            elif callable(v) and getattr(v, "__module__", None) == name:
+                out[f"{name}:{k}"] = "id%x" % id(v)
+            elif hasattr(v, "__dict__") and not type(v).__module__.startswith("logging"):
+                try:
+                    out[f"{name}:{k}"] = _h(sorted((a, repr(b)) for a, b in vars(v).items()))
+                except Exception:  # noqa
+                    pass
+    out.update(ext_snapshot())
     return out
+
+
+def ext_snapshot():
+    """process-wide switches that belong to somebody else"""
+    import decimal
+    import gc
+    import locale
+    import random
+    out = {}
+
+    def put(k, fn):
+        try:
+            out["ext:" + k] = _h(fn())
+        except Exception as e:  # noqa
+            out["ext:" + k] = "unreadable:" + type(e).__name__
+
+    try:
+        import attr
+        put("attr.validators.disabled", lambda: attr.validators.get_disabled())
+    except ImportError:
+        pass
+    try:
+        import numpy as np
+        put("numpy.errstate", lambda: sorted(np.geterr().items()))
+        put("numpy.printoptions", lambda: sorted((k, repr(v)) for k, v in np.get_printoptions().items()))
+        put("numpy.random.state", lambda: hashlib.sha1(repr(np.random.get_state()).encode()).hexdigest())
+    except ImportError:
+        pass
+    put("warnings.filters", lambda: [(a, getattr(m, "pattern", m), c.__name__, getattr(mo, "pattern", mo), ln)
+                                     for a, m, c, mo, ln in warnings.filters])
+    put("warnings.showwarning", lambda: "id%x" % id(warnings.showwarning))
+    put("logging.disable", lambda: logging.root.manager.disable)
+    put("logging.root", lambda: (logging.root.level, len(logging.root.handlers), logging.raiseExceptions,
+                                 "id%x" % id(logging.getLoggerClass())))
+    put("logging.psd_tools_loggers", lambda: sorted(
+        (n, l.level, l.disabled, l.propagate, len(l.handlers)) for n, l in logging.root.manager.loggerDict.items()
+        if isinstance(l, logging.Logger) and n.startswith("psd_tools") and n != "psd_tools.__main__"))
+    put("sys.recursionlimit", sys.getrecursionlimit)
+    put("sys.switchinterval", sys.getswitchinterval)
+    put("sys.path", lambda: list(sys.path))
+    put("sys.hooks", lambda: ("id%x" % id(sys.excepthook), repr(sys.gettrace()), repr(sys.getprofile()),
+                              "id%x" % id(sys.stdout), "id%x" % id(sys.stderr), "id%x" % id(sys.stdin)))
+    put("os.environ", lambda: sorted(os.environ.items()))
+    put("os.cwd", os.getcwd)
+    put("locale", lambda: locale.setlocale(locale.LC_ALL, None))
+    put("decimal.context", lambda: repr(decimal.getcontext()))
+    put("gc", lambda: (gc.isenabled(), gc.get_threshold()))
+    put("random.state", lambda: hashlib.sha1(repr(random.getstate()).encode()).hexdigest())
+    put("builtins", lambda: sorted((k, "id%x" % id(v)) for k, v in vars(__import__("builtins")).items() if k != "_"))
+    try:
+        from PIL import Image, ImageFile
+        put("PIL.Image.MAX_IMAGE_PIXELS", lambda: Image.MAX_IMAGE_PIXELS)
+        put("PIL.ImageFile.LOAD_TRUNCATED_IMAGES", lambda: ImageFile.LOAD_TRUNCATED_IMAGES)
+        put("PIL.ImageFile.MAXBLOCK", lambda: ImageFile.MAXBLOCK)
+    except ImportError:
+        pass
+    return out
+
+
+def diff(before, after):
+    """keys whose value changed; a key that appears with a lazily imported module is not a change"""
+    ch = []
+    for k in sorted(set(before) | set(after)):
+        if k.startswith("mod:"):
+            continue
+        if before.get(k) != after.get(k):
+            m = k.split(":", 1)[0]
+            if not k.startswith("ext:") and ("mod:" + m) not in before:
+                continue
+            ch.append(k)
+    return ch
 
 
 def _h(v):
     try:
         if isinstance(v, dict):
             s = repr(sorted((repr(k), repr(x)) for k, x in v.items()))
-        elif isinstance(v, set):
+        elif isinstance(v, (set, frozenset)):
             s = repr(sorted(repr(x) for x in v))
         else:
             s = repr(v)
@@ -173,7 +266,219 @@ def step(op, arg):
             return "accepted"
         except Exception as e:  # noqa
             return "rejected:" + type(e).__name__
+    if op == "api_script":     # arg: JSON list of actions on freshly built documents (see run_script)
+        return run_script(json.loads(arg))
+    if op == "new_doc":        # arg: "mode:w:h:depth" - PSDImage.new with valid and invalid arguments
+        mode, w, h, depth = str(arg).split(":")
+        psd = PSDImage.new(mode, (int(w), int(h)), depth=int(depth))
+        b = io.BytesIO()
+        psd.save(b)
+        return "built %dx%d %s" % (psd.width, psd.height, sha(b.getvalue()))
+    if op == "set_attr":       # arg: "path|attribute|python literal": edit the first layer, save
+        import ast as _ast
+        path, attr_name, lit = str(arg).split("|")
+        psd = PSDImage.open(path)
+        layer = next(iter(psd.descendants()))
+        setattr(layer, attr_name, _ast.literal_eval(lit))
+        b = io.BytesIO()
+        psd.save(b)
+        return "set %r %s" % (getattr(layer, attr_name), sha(b.getvalue()))
+    if op == "call_deprecated":
+        # the library's own deprecation helper wrapped around a function of ours
+        from psd_tools.api import deprecated
+
+        @deprecated
+        def old_name():
+            return 7
+        old = sys.stderr
+        sys.stderr = io.StringIO()
+        try:
+            return "returned %r" % (old_name(),)
+        finally:
+            sys.stderr = old
+    if op == "warn_probe":
+        # does the application's choice (this script ignores warnings) still hold?
+        with warnings.catch_warnings(record=True) as w:
+            warnings.warn("application's own deprecation", DeprecationWarning)
+            warnings.warn("application's own warning", UserWarning)
+        return "shown %d" % len(w)
     raise ValueError("unknown op " + op)
+
+
+def run_script(actions):
+    """A scripted edit history on freshly built documents, degenerate configurations included: layers created but
+    not attached, grouped before being attached, detached groups, operations that raise half-way.
+
+    actions: ["doc", mode, w, h] | ["open", path] | ["layer", doc, parent|null] | ["group", parent|null]
+             | ["group_layers", [items], parent|null] | ["append", container, item] | ["insert", container, i, item]
+             | ["extend", container, [items | "junk"]] | ["remove", container, item] | ["pop", container, i]
+             | ["clear", container] | ["move_to_group", item, container] | ["move_up", item, n] | ["delete", item]
+             | ["set", item, attribute, value] | ["save", doc] | ["composite", doc]
+    references: "d<i>" = i-th document, "o<i>" = i-th created layer / group (in creation order).
+    -> digest of (what every action returned or raised, the structure and the saved bytes of every document)."""
+    from PIL import Image
+    from psd_tools import PSDImage
+    from psd_tools.api.layers import Group, PixelLayer
+    docs, objs, trace = [], [], []
+
+    def ref(r):
+        if r is None:
+            return None
+        if r == "junk":
+            return 42
+        return docs[int(r[1:])] if r[0] == "d" else objs[int(r[1:])]
+
+    for act in actions:
+        kind = act[0]
+        try:
+            if kind == "doc":
+                docs.append(PSDImage.new(act[1], (act[2], act[3])))
+                out = "doc"
+            elif kind == "open":
+                docs.append(PSDImage.open(act[1]))
+                out = "opened"
+            elif kind == "layer":
+                d = ref(act[1])
+                n = len(objs)
+                im = Image.new("RGB", (2 + n % 3, 2), (40 * n % 256, 20, 200))
+                layer = PixelLayer.frompil(im, d, "layer%d" % n, n % 3, n % 2)
+                objs.append(layer)
+                if act[2] is not None:
+                    ref(act[2]).append(layer)
+                out = "layer"
+            elif kind == "group":
+                g = Group.new("group%d" % len(objs), parent=ref(act[1]))
+                objs.append(g)
+                out = "group"
+            elif kind == "group_layers":
+                g = Group.group_layers([ref(x) for x in act[1]], name="grouped%d" % len(objs), parent=ref(act[2]))
+                objs.append(g)
+                out = "grouped"
+            elif kind == "append":
+                ref(act[1]).append(ref(act[2]))
+                out = "ok"
+            elif kind == "insert":
+                ref(act[1]).insert(act[2], ref(act[3]))
+                out = "ok"
+            elif kind == "extend":
+                ref(act[1]).extend([ref(x) for x in act[2]])
+                out = "ok"
+            elif kind == "remove":
+                ref(act[1]).remove(ref(act[2]))
+                out = "ok"
+            elif kind == "pop":
+                out = "popped %s" % ref(act[1]).pop(act[2]).name
+            elif kind == "clear":
+                ref(act[1]).clear()
+                out = "ok"
+            elif kind == "move_to_group":
+                ref(act[1]).move_to_group(ref(act[2]))
+                out = "ok"
+            elif kind == "move_up":
+                ref(act[1]).move_up(act[2])
+                out = "ok"
+            elif kind == "delete":
+                ref(act[1]).delete_layer()
+                out = "ok"
+            elif kind == "set":
+                setattr(ref(act[1]), act[2], act[3])
+                out = "ok"
+            elif kind == "save":
+                b = io.BytesIO()
+                ref(act[1]).save(b)
+                out = "saved " + sha(b.getvalue())
+            elif kind == "composite":
+                import numpy as np
+                from psd_tools.composite import composite
+                c, _s, a = composite(ref(act[1]), force=True)
+                out = "composite " + sha(np.ascontiguousarray(c).tobytes() + np.ascontiguousarray(a).tobytes())
+            else:
+                out = "unknown action"
+        except Exception as e:  # noqa
+            out = "EXC:" + type(e).__name__
+        trace.append(out)
+    final = []
+    for d in docs:
+        try:
+            b = io.BytesIO()
+            d.save(b)
+            again = PSDImage.open(io.BytesIO(b.getvalue()))
+            final.append((describe(d), sha(b.getvalue()), describe(again)))
+        except Exception as e:  # noqa
+            final.append("EXC:" + type(e).__name__)
+    return sha(repr((trace, final)).encode("utf-8", "replace")) + ":" + ",".join(t.split(" ")[0] for t in trace)[:160]
+
+
+def classify(paths):
+    """open every file, report ("opened" | "opened+warning:<first message>" | "EXC:<type>") - used to pick the damaged
+    documents that the reader tolerates. Runs in a subprocess of its own: it executes the library on damaged input."""
+    from psd_tools import PSDImage
+    logging.disable(logging.NOTSET)
+    seen = []
+
+    class H(logging.Handler):
+        def emit(self, record):
+            if record.levelno >= logging.WARNING:
+                seen.append(record.getMessage())
+
+    h = H()
+    root = logging.getLogger("psd_tools")
+    root.addHandler(h)
+    out = []
+    for p in paths:
+        del seen[:]
+        try:
+            psd = PSDImage.open(p)
+            describe(psd)
+            out.append("opened+warning:" + seen[0][:60] if seen else "opened")
+        except Exception as e:  # noqa
+            out.append("EXC:" + type(e).__name__)
+    return out
+
+
+def run_sessions_forked(scripts, workers):
+    """Every script in a process of its own, forked from THIS interpreter, which has done nothing but the imports a
+    fresh session does first: the child is in the state of a fresh interpreter that has just finished importing
+    (no step ever runs in the parent). Saves the import time of one interpreter per step."""
+    import select
+    results = [None] * len(scripts)
+    running = {}
+    nxt = 0
+    sys.stdout.flush()
+    while nxt < len(scripts) or running:
+        while nxt < len(scripts) and len(running) < workers:
+            r, w = os.pipe()
+            pid = os.fork()
+            if pid == 0:
+                code = 0
+                try:
+                    os.close(r)
+                    try:
+                        data = json.dumps(run_one(scripts[nxt]))
+                    except BaseException as e:  # noqa
+                        data = json.dumps({"error": repr(e)[:300]})
+                    with os.fdopen(w, "w") as f:
+                        f.write(data)
+                except BaseException:  # noqa
+                    code = 1
+                os._exit(code)
+            os.close(w)
+            running[r] = [nxt, pid, b""]
+            nxt += 1
+        ready, _, _ = select.select(list(running), [], [])
+        for fd in ready:
+            chunk = os.read(fd, 1 << 16)
+            if chunk:
+                running[fd][2] += chunk
+            else:
+                i, pid, buf = running.pop(fd)
+                os.close(fd)
+                os.waitpid(pid, 0)
+                try:
+                    results[i] = json.loads(buf.decode())
+                except Exception:  # noqa
+                    results[i] = {"error": "no answer from the forked session"}
+    return results
 
 
 def main():
@@ -181,16 +486,40 @@ def main():
     import psd_tools  # noqa
     import psd_tools.api.psd_image, psd_tools.composite, psd_tools.psd.descriptor  # noqa
     import psd_tools.api.effects, psd_tools.api.adjustments, psd_tools.api.shape, psd_tools.api.smart_object  # noqa
+    if isinstance(script, dict) and "classify" in script:
+        print(json.dumps({"classes": classify(script["classify"])}))
+        return
+    if isinstance(script, dict) and "fork_each" in script:
+        print(json.dumps({"sessions": run_sessions_forked(script["fork_each"], int(script.get("workers", 12)))}))
+        return
+    print(json.dumps(run_one(script)))
+
+
+def run_one(script):
     before = snapshot()
+    prev = before
     results = []
-    for op, arg in script:
+    changed_by = {}
+    import time
+    spent = {}
+    for i, (op, arg) in enumerate(script):
+        t0 = time.time()
         try:
             results.append(step(op, arg))
         except Exception as e:  # noqa
             results.append("EXC:" + type(e).__name__)
-    after = snapshot()
-    changed = sorted(k for k in set(before) | set(after) if before.get(k) != after.get(k))
-    print(json.dumps({"results": results, "changed_cells": changed}))
+        spent[op] = spent.get(op, 0.0) + time.time() - t0
+        t0 = time.time()
+        cur = snapshot()
+        spent["<snapshot>"] = spent.get("<snapshot>", 0.0) + time.time() - t0
+        for k in diff(prev, cur):
+            changed_by.setdefault(k, i)
+        prev = cur
+    changed = diff(before, prev)
+    return {"results": results, "changed_cells": changed,
+            "changed_by": {k: v for k, v in changed_by.items()},
+            "restored": sorted(k for k in changed_by if k not in changed),
+            "seconds": {k: round(v, 2) for k, v in spent.items()}}
 
 
 if __name__ == "__main__":
